@@ -350,7 +350,7 @@ def has_any(node, srcs):
 PURE_METHODS = {'charAt', 'charCodeAt', 'substring', 'substr', 'strip', 'lstrip', 'rstrip', 'trim', 'lower', 'upper', 'toLowerCase', 'toUpperCase', 'group', 'get', 'span', 'start', 'end', 'startswith', 'endswith', 'format', 'join', 'find', 'indexOf'}
 
 
-def inline_single_defs(expr, fd, depth=2):
+def inline_single_defs(expr, fd, depth=2, any_value=False):
     """copy of expr in which every local that fd assigns exactly once (plain `name = <expression without side effects>`) is replaced
     by that expression: `n = len(fields); if n != self.header_len` is matched like `if len(fields) != self.header_len`"""
     defs = {}
@@ -365,6 +365,8 @@ def inline_single_defs(expr, fd, depth=2):
     params = {a.arg for a in fd.args.args} if isinstance(fd, (ast.FunctionDef, ast.AsyncFunctionDef)) else set()
 
     def pure(v):
+        if any_value:
+            return v is not None
         return v is not None and all(not isinstance(x, (ast.Call, ast.Await, ast.Yield)) or (isinstance(x, ast.Call) and ((isinstance(x.func, ast.Name) and x.func.id in ('len', 'str', 'int', 'float')) or (isinstance(x.func, ast.Attribute) and x.func.attr in PURE_METHODS))) for x in ast.walk(v))
 
     class T(ast.NodeTransformer):
